@@ -12,6 +12,9 @@ perform_kramers_kronig_test(..., num_F_ext_evaluations=0, num_procs=1) is run on
                 difference weighted with that term's largest contribution to the spectrum and divided by the largest
                 contribution of all terms (= "significant parameters")                             <= PAR_TOL
   completion    both calls return (an exception on either side is a violation keyed by side and origin)
+  option types  for every second pair the transformed input is run with its options as NumPy scalars (numpy.bool_ flags,
+                numpy.int64 num_RC / num_procs, numpy.float64 log_F_ext; c07.run_route): the type of an option value must
+                not matter; a type refused up front (TypeError) is counted and replaced by the Python type
   route         for a fixed share of the pairs (about 1/48 and 1/24) the transformed input is evaluated through
                 perform_exploratory_kramers_kronig_tests(num_RCs=[n-1,n,n+1]) or evaluate_log_F_ext(num_RCs=[n]) instead
                 of perform_kramers_kronig_test (c07.run_route): the verdict must not depend on the entry point either;
@@ -47,7 +50,7 @@ RULE = (
     "itself; multiplicative Gaussian noise 0..1 %), grids 4..12 points/decade over 2.5..7 decades, for every legal linear cell "
     "(6 tests x {Z,Y} x add_capacitance x add_inductance; cnls impedance without capacitance on noise-free spectra in the thorough tier), num_RC "
     "from 2 to ~1.5 per decade, log_F_ext in [-0.5,0.5]; transforms {Z*a, f*b, reverse, Z*a+f*b, Z*a+f*b+reverse}, a,b in "
-    "10^[-6,6] (half of them exact powers of two); a fixed share of the transformed inputs goes through "
+    "10^[-6,6] (half of them exact powers of two); every second transformed input passes its options as NumPy scalars; a fixed share of the transformed inputs goes through "
     "perform_exploratory_kramers_kronig_tests / evaluate_log_F_ext instead of perform_kramers_kronig_test. A pair is non-trivial when both inputs pass the conditioning gate; "
     "distinct = distinct (cell, spectrum, num_RC, log_F_ext, transform) keys."
 )
@@ -182,10 +185,10 @@ def gen_pair(rng, cell, tier):
 # ------------------------------------------------------------------------------------------------
 # execution + oracle
 # ------------------------------------------------------------------------------------------------
-def _run(f, Z, p, route="main"):
+def _run(f, Z, p, route="main", np_types=False):
     """route: which public entry point produces the result (c07.run_route): perform_kramers_kronig_test,
     perform_exploratory_kramers_kronig_tests or evaluate_log_F_ext - the verdict must not depend on it."""
-    return c07.run_route(f, Z, p["test"], p["num_RC"], p["add_c"], p["add_l"], p["adm"], p["log_F_ext"], route)
+    return c07.run_route(f, Z, p["test"], p["num_RC"], p["add_c"], p["add_l"], p["adm"], p["log_F_ext"], route, np_types)
 
 
 def _stats(f, Z, p):
@@ -252,7 +255,7 @@ def check_pair(p):
 
     def bad(mech, msg, key=None):
         viol.append({"key": key or f"C09/{mech}:{test}/{rep}{rsfx}",
-                     "msg": f"[{cname} N={len(f1)} num_RC={n} log_F_ext={x:.3g} transform={p['transform']} a={a:.6g} b={b:.6g} route={route}] {msg}",
+                     "msg": f"[{cname} N={len(f1)} num_RC={n} log_F_ext={x:.3g} transform={p['transform']} a={a:.6g} b={b:.6g} route={route}{' numpy-typed options' if p.get('np_types') else ''}] {msg}",
                      "witness": {"cell": cname, "gate_data": {k: float(v) for k, v in st1.items()}, "gate_transformed": {k: float(v) for k, v in st2.items()},
                                  "inside_gate": bool(inside), "replay_case": replay}})
 
@@ -261,7 +264,7 @@ def check_pair(p):
     res = []
     for side, (ff, ZZ) in (("data", (f1, Z1)), ("transformed", (f2, Z2))):
         try:
-            res.append(_run(ff, ZZ, p, route if side == "transformed" else "main"))
+            res.append(_run(ff, ZZ, p, route if side == "transformed" else "main", bool(p.get("np_types")) and side == "transformed"))
         except c07.RouteResultMissing as e:
             bad("route-result-missing", f"{side} via {route}: {e}"[:300])
             return out
@@ -382,8 +385,11 @@ def run_case(case):
         if v is not None and np.isfinite(v):
             maxobs[name] = max(maxobs.get(name, 0.0), float(v))
 
-    for cell, alt in todo:
+    refused0 = dict(c07.NP_REFUSED)
+    for idx, (cell, alt) in enumerate(todo):
         p = gen_pair(rng, tuple(cell), tier)
+        p["np_types"] = bool(idx % 2)  # transformed input of every second pair: options as NumPy scalars
+        cnt("options:numpy_types" if p["np_types"] else "options:python_types")
         if alt:
             p["route"] = alt
             cnt(f"route:{alt}")
@@ -431,6 +437,9 @@ def run_case(case):
             mx(f"outside:dres:{tname}", o.get("dres"))
             if abs(np.log10(p["b"])) < MIN_LOG_B:
                 mx(f"outside:dres(|log10 b|<5):{tname}", o.get("dres"))
+    for k, v in c07.NP_REFUSED.items():
+        if v - refused0.get(k, 0):
+            cnt(f"options:numpy_types_refused:{k}", v - refused0.get(k, 0))
     return {"evals": evals, "keys": keys, "viol": viol[:40], "stats": stats, "maxobs": maxobs, "sample": sample}
 
 
